@@ -102,10 +102,25 @@ def handle : Handler := fun op inp impl =>
   | "comp" =>
     let msgs := (strList (field inp "msgs"))
     let outs := (arr (field impl "outs")).map fun j => if isNull j then none else some (str j)
-    -- model: compressAll leaves enc m in the i-th destination; a lawful library decodes it to m
+    -- model: the pooled compressor over the Write calls the op really made (compressVia; theorem
+    -- handover_irrelevant / compressor_reuse_any_handover), the library a lawful parameter (identity)
+    let via := str (field inp "via")
+    let split := bool (field inp "split")
+    let chunksOf (m : Bytes) : List Bytes :=
+      let (pre, rest) : List Bytes × Bytes := if split && m.length > 1 then ([m.take (m.length / 2)], m.drop (m.length / 2)) else ([], m)
+      pre ++ (match via with
+        | "writeto" => if rest.isEmpty then [] else [rest]
+        | "readfrom" => if rest.isEmpty then [] else [rest]
+        | "bytes" => rest.map ([·])
+        | _ => [rest])
+    let idLib : Lib := { enc := fun b => b, look := fun src => ⟨true, some src⟩ }
+    let c := compressVia idLib cinit (msgs.map (fun m => chunksOf (unhex m)))
+    let mOuts := (c.done ++ c.dst.toList).map (fun b => some (hex b))
+    -- the property: every destination decodes (fresh decompressor) to its message
     let holds := outs == msgs.map some
-    { agree := holds, holds := holds, nontrivial := msgs.length > 1, cls := toString (nat (field inp "enc")),
-      model := toJson msgs,
+    { agree := outs == mOuts, holds := holds, nontrivial := msgs.length > 1,
+      cls := toString (nat (field inp "enc")) ++ (if via.isEmpty then "" else ":" ++ via),
+      model := toJson mOuts,
       why := if holds then "" else "a reused compressor produced a stream that does not decode to the message" }
   | "procs" =>
     let enc := nat (field inp "enc")
